@@ -306,6 +306,9 @@ class Database:
             # move out of the FAST_PATH and into the working directory
             newPath = safeMove(self._fullPath, self._fileName)
             self._fullPath = os.path.abspath(newPath)
+            # the file is finished: opening this object again (e.g. ``with db:`` to load a state
+            # after the run) must add to it, never start over with an empty file
+            self._permission = "a"
 
     def splitDatabase(
         self, keepTimeSteps: Sequence[Tuple[int, int]], label: str
